@@ -1,6 +1,7 @@
 import StorageModel.Driver.Common
 import StorageModel.C06.Model
 import StorageModel.C06.NoTrace
+import StorageModel.C06.Depth
 /- model driver for C06: `run spec` reads case lines on stdin and prints one output line per case
    (spec = false: the engine model's output; spec = true: the spec's verdict).
    Line protocol: see /verif/harness/c06.go. -/
@@ -174,9 +175,104 @@ def runModel (nm : Names) (en : Enc) (spec : Bool) (vals : List Bytes) (txs : Li
         go s' dump rest ((resW s ops ++ "#" ++ shown ++ "#" ++ readsW en vals s' ++ "#" ++ del) :: acc)
   "|".intercalate (go State.empty "" txs [])
 
+-- ------------------------------------------------------------------ three-level chains (case prefix g)
+namespace DepthD
+open StorageModel.C06.Depth
+
+def parseCfg (s : String) : Option Cfg :=
+  match s.splitOn "/" with
+  | [kinds, d0, d1, d2, reg] =>
+    match kinds.toList with
+    | [k1, k2] =>
+      let mk (p : Option Nat) (r : List Nat) (ext : Bool) (path : List Bytes) (tag : UInt8) (d : String) : StoreCfg :=
+        let c := d.toList
+        { parent := p, regWith := r, extended := ext, path := path, tag := tag,
+          uniq := c.contains 'u', set := c.contains 's', link := c.contains 'l', fk := c.contains 'f' }
+      let rg := reg.toList
+      some [mk none [] false [] 48 d0, mk (some 0) [0] (k1 == 'e') [[101, 120, 116]] 49 d1,
+            mk (some 1) ((if rg.contains 'c' then [1] else []) ++ (if rg.contains 'r' then [0] else []))
+              (k2 == 'e') [[101, 120, 116], [103]] 50 d2]
+    | _ => none
+  | _ => none
+
+def parseValsD : List String → Option (List Vals)
+  | u :: s :: l :: f :: rest => do
+    let v : Vals := ⟨← parseOpt u, ← parseList s, ← parseList l, ← parseOpt f⟩
+    let r ← parseValsD rest
+    pure (v :: r)
+  | [] => some []
+  | _ => none
+
+def parseOpD (s : String) : Option Depth.Op :=
+  match s.splitOn ":" with
+  | hd :: idw :: rest =>
+    match hd.toList with
+    | [c, d] =>
+      let k := d.toNat - 48
+      if k > 2 then none else do
+      let id ← Bytes.ofHex idw
+      if c == 'd' then (if rest.isEmpty then some (.delete k id) else none)
+      else if c == 'c' then do
+        let vs ← parseValsD rest
+        if vs.length == k + 1 then some (.create k id vs) else none
+      else if c == 'u' then do
+        let chk ← rest.getLast?
+        let vs ← parseValsD rest.dropLast
+        if vs.length != k + 1 then none else
+        let ck : Option (List Nat) := if chk == "*" then none
+          else some (chk.toList.filterMap fun ch => if 'a' ≤ ch && ch ≤ 'l' then some (ch.toNat - 97) else none)
+        some (.update k id vs ck)
+      else none
+    | _ => none
+  | _ => none
+
+def parseTxsD (s : String) : Option (List (List Depth.Op)) :=
+  (s.splitOn "|").mapM fun tx => (tx.splitOn ",").mapM parseOpD
+
+def liveD (s : DState) : List Id := (s.data.filter (·.1 == 0)).map (·.2.1)
+
+def deletedD (cfg : Cfg) (spec : Bool) (s s' : DState) : String :=
+  let now := liveD s'
+  let ids := (liveD s).eraseDups.filter fun j => !now.contains j
+  if ids.isEmpty then "."
+  else
+    let ls := Depth.Render cfg s'
+    let parts := ids.map fun j =>
+      if spec then hexB j ++ "=ok/clean"
+      else hexB j ++ "=" ++ (if ls.any (fun l => decide (Mentions j l)) then "found" else "ok") ++ "/" ++ scanW j ls ++
+        -- the hypothesis of the theorems, evaluated: in a reachable configuration the state stays sound
+        (if reachableB cfg && !decide (Sound cfg s') then "!unsound" else "")
+    ",".intercalate (sortStrings parts)
+
+def runD (cfg : Cfg) (spec : Bool) (txs : List (List Depth.Op)) : String :=
+  let rec go (s : DState) (prev : String) (txs : List (List Depth.Op)) (acc : List String) : List String :=
+    match txs with
+    | [] => acc.reverse
+    | ops :: rest =>
+      let r := Depth.txStep cfg s ops
+      let s' := r.1
+      let del := if r.2.isNone then deletedD cfg spec s s' else "."
+      if spec then go s' "" rest (("-#-#-#" ++ del) :: acc)
+      else
+        let dump := dumpW (Depth.Render cfg s')
+        let shown := if dump == prev then "=" else dump
+        let res := match r.2 with
+          | none => "ok"
+          | some (i, e) => "err:" ++ errName e ++ "@" ++ toString i
+        go s' dump rest ((res ++ "#" ++ shown ++ "#.#" ++ del) :: acc)
+  "|".intercalate (go {} "" txs [])
+
+def stepD (spec : Bool) (cfg txs : String) : String :=
+  match parseCfg cfg, parseTxsD txs with
+  | some c, some ts => runD c spec ts
+  | _, _ => "bad-case"
+
+end DepthD
+
 def stepWith (spec : Bool) (line : String) : String :=
   match splitSp line with
   | [h, vals, txs] =>
+    if h = "g" then DepthD.stepD spec vals txs else
     -- `h`: the plain naming of the schema, `h1`: the variant with symbol ≠ key ≠ checker name
     -- `h2`: the typed variant (unique indexes over int64 / int32 / float64 symbols)
     let variant : Option (Names × Enc) :=
